@@ -316,6 +316,26 @@ def c_dae(k):
         k.prove_eq("rows: c(t, q, u, la_c)", F[sp[4] :], sysm.c(t, q, u, la_c))
 
 
+def _schur_lemmas(k, lin, tag):
+    """G la = b for the last-but-one linear solve (the Schur-complement system), proved from the
+    facts 'G Ginv = I' of that solve only, the entries of G replaced by fresh variables."""
+    A, x, b = lin.solves[-2]
+    key = tuple(S._coerce(e).uid for e in A.ravel())
+    Ai = lin._inv[key]
+    n = A.shape[0]
+    abstract = {}
+    for i in range(n):
+        for j in range(n):
+            abstract[A[i, j]] = f"{tag}_G{i}{j}"
+    with npshim.active(True):
+        r = A @ x
+        inv_facts = [S._coerce((A @ Ai)[i, j]) == (1 if i == j else 0) for i in range(n) for j in range(n)]
+    facts_now = {id(f) for f in k.run.facts}
+    using = inv_facts if all(id(S._cb(f)) in facts_now for f in inv_facts) else None  # only facts the solver stub has stated
+    for i in range(n):
+        k.lemma(f"{tag}: row {i} of G la = -mu (Schur complement solve)", S._coerce(r[i]) == S._coerce(b[i]), using=using, abstract=abstract if using else None)
+
+
 @contract("C17", "ScipyIVP/accelerations-and-multipliers", samples=0, replayable=False, timeout=180)
 def c_ivp(k):
     if not k.sym:
@@ -333,6 +353,10 @@ def c_ivp(k):
         f = sysm.h(t, q, u) + sysm.W_tau(t, q) @ sysm.la_tau(t, q, u) + sysm.W_c(t, q) @ la_c
         k.prove_eq("la_c = la_c(t, q, u)", la_c, sysm.la_c(t, q, u))
         k.prove_eq("equations of motion: M u_dot = h + W_tau la_tau + W_c la_c + W_g la_g + W_gamma la_gamma", sysm.M(t, q) @ ud, f + sysm.W_g(t, q) @ la_g + sysm.W_gamma(t, q) @ la_gam)
+        # proof script (Schur complement): G la = -mu from the solver contract of the G solve alone,
+        # with the entries of G abstracted; the acceleration rows below then follow by
+        # expanding g_dot_u M^-1 (f + W la) with la abstracted.  Both steps are obligations.
+        _schur_lemmas(k, lin, "la_g_la_gamma_la_c")
         k.prove_eq("g_ddot(t, q, u, u_dot) = 0", sysm.g_ddot(t, q, u, ud), np.zeros(sysm.nla_g))
         k.prove_eq("gamma_dot(t, q, u, u_dot) = 0", sysm.gamma_dot(t, q, u, ud), np.zeros(sysm.nla_gamma))
         dx = solver.eqm(t, np.concatenate([q, u]))
